@@ -326,6 +326,9 @@ pub fn run(tier: Tier) -> i32 {
         crash_subject: "elf".into(),
     };
     let g = gen(tier.is_thorough());
+    if let Some(art) = crate::common::replay_artefact() {
+        return crate::common::finish_replay("C15", &art, &|ws| confirm_enum(&o, &g, ws));
+    }
     let out = run_enum(&o, &g);
     enum_evidence(&mut run, &out, "one case = a generated ET_EXEC file: 1-3 PT_LOAD segments in every program-header order over page slots {0x400000, 0x401000, 0x403000, 0x10000000}, in-page offset {0, 0x10, 0xE10} (p_offset congruent), filesz {0, 1, 0x1F0, to page end, 0x1000, 0x2000}, bss tail {0, 1, to page end, 0x1800}, all 8 flag masks (single segment), optional PT_PHDR/PT_NOTE/PT_GNU_STACK, 6 symbol-table variants, entry at segment start or middle; only combinations whose segments occupy distinct pages; oracle = the writer's own parameters; states = distinct files; distinct_nontrivial = distinct (file, number of violated clauses)");
     run.guard("cases", out.cases >= 50_000 || out.capped, format!("{} files", out.cases));
